@@ -217,6 +217,13 @@ func (e *Eng) evalBool(x Expr, env *Env, cur, old *State, c *Clause) (res string
 			if c != nil {
 				lbl = fmt.Sprintf("%s (line %d)", c.Label, c.Line)
 			}
+			if msg := fmt.Sprint(r); strings.HasPrefix(msg, "unknown identifier") {
+				// the clause names a variable the function does not (any longer) have: it cannot hold as an
+				// obligation and says nothing as an assumption
+				e.note("contract clause %s: %v: the clause is undischargeable until the contract and the code agree again", lbl, r)
+				res = e.sc.havoc("unevaluable", "Bool")
+				return
+			}
 			e.errf("contract clause %s: %v", lbl, r)
 			res = "false"
 		}
